@@ -88,11 +88,17 @@ func runC02(c *Ctx) {
 		rmw := map[string]bool{"Inc": true, "Add": true}
 		forbidden := map[string]bool{"Store": true, "Swap": true, "CAS": true, "CompareAndSwap": true, "Dec": true, "Sub": true}
 		var rmwCalls []*ssa.Call
-		EachInstr(daNext, func(in ssa.Instruction) {
-			if cl, ok := in.(*ssa.Call); ok && onI(&cl.Call) && rmw[CalleeObj(&cl.Call).Name()] {
-				rmwCalls = append(rmwCalls, cl)
-			}
+		// Next and the helpers of the type only it calls (acquireIndex(), tokenTime(i))
+		daRegion := FindFuncs(daNext, 2, func(g *ssa.Function) bool {
+			return g == daNext || (PkgOf(g) == PkgOf(daNext) && P.WithinOnly(g, func(f *ssa.Function) bool { return f == daNext }, 3))
 		})
+		for _, g := range daRegion {
+			EachInstr(g, func(in ssa.Instruction) {
+				if cl, ok := in.(*ssa.Call); ok && onI(&cl.Call) && rmw[CalleeObj(&cl.Call).Name()] {
+					rmwCalls = append(rmwCalls, cl)
+				}
+			})
+		}
 		iv := PathQuery{Fn: daNext, Weight: func(in ssa.Instruction) (int, int) {
 			if cc := CC(in); onI(cc) {
 				return 1, 1
@@ -116,9 +122,36 @@ func runC02(c *Ctx) {
 					return isC
 				}) && DerivesAny(v, true, func(r ssa.Value) bool { return r == ssa.Value(rc) })
 			}
+			// the value as computed: a helper's parameter is what its only call site passes, the result of a helper
+			// what its only return yields
+			resolve := func(v ssa.Value) ssa.Value {
+				for d := 0; d < 4; d++ {
+					v = Strip(v)
+					if pr, isP := v.(*ssa.Parameter); isP {
+						site := SoleCallSite(pr.Parent())
+						if site == nil {
+							return v
+						}
+						for i, q := range pr.Parent().Params {
+							if a := ArgOfParam(site, pr.Parent(), i); q == pr && a != nil {
+								v = a
+							}
+						}
+						continue
+					}
+					if cl, isC := v.(*ssa.Call); isC && cl != rc && cl.Call.StaticCallee() != nil && PkgOf(cl.Call.StaticCallee()) == PkgOf(daNext) {
+						if ts := ThroughReturns(v); len(ts) == 1 && ts[0] != v {
+							v = ts[0]
+							continue
+						}
+					}
+					return v
+				}
+				return v
+			}
 			// index = result - 1
 			idxOK := func(v ssa.Value) bool {
-				b, ok := Strip(v).(*ssa.BinOp)
+				b, ok := resolve(v).(*ssa.BinOp)
 				if !ok || b.Op != token.SUB || b.X != ssa.Value(rc) {
 					return false
 				}
@@ -126,48 +159,25 @@ func runC02(c *Ctx) {
 				return isC && k == 1
 			}
 			nUse := 0
-			EachInstr(daNext, func(in ssa.Instruction) {
-				// comparison with n
-				if b, ok := in.(*ssa.BinOp); ok {
-					switch b.Op {
-					case token.LSS, token.LEQ, token.GTR, token.GEQ, token.EQL, token.NEQ:
-						for i, side := range []ssa.Value{b.X, b.Y} {
-							other := []ssa.Value{b.Y, b.X}[i]
-							if IsFieldLoad(other, "doAtSchedule", "n") {
-								nUse++
-								c.Check(idxOK(side) && fromRMW(side), "O2.1", fk(daNext)+":budget-compared-with-the-drawn-index", b.Pos(), "the value compared with n must be (fetch-and-increment result - 1)")
-							}
-						}
-					}
-				}
-				if cc := CC(in); cc != nil && IsFieldCall(cc, "doAtSchedule", "doAt") {
-					nUse++
-					c.Check(len(cc.Args) == 1 && idxOK(cc.Args[0]), "O2.1", fk(daNext)+":doAt-of-the-drawn-index", in.Pos(), "doAt must be evaluated at (fetch-and-increment result - 1)")
-				}
-			})
-			// doAt evaluated in a helper of Next (operationTime(i)): its argument is the helper's parameter, which
-			// receives the drawn index at the helper's only call site
-			for _, g := range FindFuncs(daNext, 2, func(*ssa.Function) bool { return true }) {
-				if g == daNext {
-					continue
-				}
-				EachInstr(g, func(in ssa.Instruction) {
-					cc := CC(in)
-					if cc == nil || !IsFieldCall(cc, "doAtSchedule", "doAt") {
-						return
-					}
-					nUse++
-					ok := false
-					if pr, isP := cc.Args[0].(*ssa.Parameter); isP && len(cc.Args) == 1 {
-						if site := SoleCallSite(g); site != nil && site.Parent() == daNext {
-							for i, q := range g.Params {
-								if a := ArgOfParam(site, g, i); q == pr && a != nil {
-									ok = idxOK(a)
+			for _, dg := range daRegion {
+				EachInstr(dg, func(in ssa.Instruction) {
+					// comparison with n
+					if b, ok := in.(*ssa.BinOp); ok {
+						switch b.Op {
+						case token.LSS, token.LEQ, token.GTR, token.GEQ, token.EQL, token.NEQ:
+							for i, side := range []ssa.Value{b.X, b.Y} {
+								other := []ssa.Value{b.Y, b.X}[i]
+								if IsFieldLoad(other, "doAtSchedule", "n") {
+									nUse++
+									c.Check(idxOK(side) && fromRMW(resolve(side)), "O2.1", fk(daNext)+":budget-compared-with-the-drawn-index", b.Pos(), "the value compared with n must be (fetch-and-increment result - 1)")
 								}
 							}
 						}
 					}
-					c.Check(ok, "O2.1", fk(g)+":doAt-of-the-drawn-index", in.Pos(), "doAt must be evaluated at (fetch-and-increment result - 1)")
+					if cc := CC(in); cc != nil && IsFieldCall(cc, "doAtSchedule", "doAt") {
+						nUse++
+						c.Check(len(cc.Args) == 1 && idxOK(cc.Args[0]), "O2.1", fk(dg)+":doAt-of-the-drawn-index", in.Pos(), "doAt must be evaluated at (fetch-and-increment result - 1)")
+					}
 				})
 			}
 			c.Floor("O2.1", "uses of the drawn index in doAtSchedule.Next", nUse, 2)
@@ -1213,6 +1223,20 @@ func c02ReadAfterStart(c *Ctx, id string, pkgFns []*ssa.Function) {
 				EachInstr(f, func(d ssa.Instruction) {
 					if cl, isC := d.(*ssa.Call); isC && MatchCC(&cl.Call, sOnceDo) && InstrDominates(d, at) {
 						ok = true
+					}
+					// ... or of a helper of the package that runs startOnce.Do on every path (s.startNowIfNotStarted())
+					if cl, isC := d.(*ssa.Call); isC && !ok && InstrDominates(d, at) {
+						if sc := cl.Call.StaticCallee(); sc != nil && sc != f && len(sc.Blocks) > 0 && PkgOf(sc) == PkgOf(f) {
+							iv := PathQuery{Fn: sc, Weight: func(in ssa.Instruction) (int, int) {
+								if c2, isC2 := in.(*ssa.Call); isC2 && MatchCC(&c2.Call, sOnceDo) {
+									return 1, 1
+								}
+								return 0, 0
+							}}.Count()
+							if iv.Min >= 1 {
+								ok = true
+							}
+						}
 					}
 				})
 				for _, bf := range BoolFactsAt(at) {
